@@ -241,6 +241,11 @@ func cmdVerify(keys []string, tag string, timeoutMs int, verbose bool) int {
 		fmt.Println("MACHINERY:", e)
 	}
 	t0 := time.Now()
+	if d := os.Getenv("GOWP_DUMPALL"); d != "" {
+		for i, o := range s.x.obls {
+			os.WriteFile(filepath.Join(d, fmt.Sprintf("%s.%d.smt2", sanitize(o.Name), i)), []byte("; path: "+strings.Join(o.Path, " ")+"\n"+buildQuery(o, true)), 0o644)
+		}
+	}
 	discharge(s.x.obls, runCfg{timeoutMs: timeoutMs, jobs: 7})
 	bad := 0
 	byName := map[string][]*Obligation{}
